@@ -562,6 +562,43 @@ func c20Run(c *mon.Ctx) {
 			}
 		}
 	}
+	// the normalisation a compound event selected stays what it was when other events of the same first record
+	// type - with other syscalls, hence other additions to category/type - are coalesced afterwards (the table
+	// entries are shared by all events: nothing may be appended into them)
+	{
+		r := c.Rand(77)
+		type kept struct {
+			g    logenc.Group
+			e    *aucoalesce.Event
+			snap string
+		}
+		for _, typ := range c15Types {
+			var ks []kept
+			for i := 0; i < 4; i++ {
+				g := logenc.GenTypedCompound(r, typ)
+				e, err := aucoalesce.CoalesceMessages(parseLoose(&g))
+				if err != nil || e == nil {
+					continue
+				}
+				b, _ := json.Marshal(e)
+				ks = append(ks, kept{g, e, string(b)})
+				ev.Add(1)
+			}
+			for i, k := range ks {
+				if b, _ := json.Marshal(k.e); string(b) != k.snap {
+					bad("normalisation-shared-state", "compound event #%d with first record type %s changed after other events of that type (other syscalls) were coalesced: %s", i, typ, diffSig(k.snap, string(b)))
+					break
+				}
+				if e2, err := aucoalesce.CoalesceMessages(parseLoose(&k.g)); err == nil && e2 != nil {
+					if b, _ := json.Marshal(e2); string(b) != k.snap {
+						bad("normalisation-depends-on-history", "the messages of compound event #%d (first record type %s) coalesce to a different event after other events of that type: %s", i, typ, diffSig(k.snap, string(b)))
+						break
+					}
+				}
+			}
+			c.Add("typed_compound_events_rechecked", int64(len(ks)))
+		}
+	}
 	for name, n := range rawRec {
 		if _, ok := recordNorms[name]; !ok {
 			bad("yaml-loader-dropped-record-type", "record type %s (listed %d times) is in the file but not in the loaded table", name, n)
@@ -587,7 +624,7 @@ func min(a, b int) int {
 func init() {
 	register(&mon.CheckSpec{
 		ID: "C20", Level: "exploration", Exhaustive: true,
-		Rule: "EXHAUSTIVE enumeration at run time of: all 65536 record type codes (name -> number -> name in three letter cases, text marshalling, unique names, repeated and concurrent categorisation); both errno maps in both directions (aliases resolve to one number; cross-checked with x/sys/unix); every architecture name <-> code (unique, String(), the rule package's reverse table, linux/audit.h spot table, and through Build/ToCommandLine with = and !=); every (arch, syscall) entry (a name maps to one number, the rule package's reverse table, and a rule '-F arch=A -S name' sets exactly that bit and round-trips); every rule field / operator / comparison table entry (verif export hook) against linux/audit.h in both directions; every entry of normalizations.yaml (read from /repo, loaded with the exported loader and walked independently as a YAML node tree): record types resolve and print back identically, syscalls occur in at least one arch table, nothing listed twice, every record type selects the same normalisation on repeated evaluation for every subset of its has_fields, and a record type with several conditional normalisations selects the one whose has_fields the record carries (none when it carries none). distinct_nontrivial = distinct named table entries visited.",
+		Rule: "EXHAUSTIVE enumeration at run time of: all 65536 record type codes (name -> number -> name in three letter cases, text marshalling, unique names, repeated and concurrent categorisation); both errno maps in both directions (aliases resolve to one number; cross-checked with x/sys/unix); every architecture name <-> code (unique, String(), the rule package's reverse table, linux/audit.h spot table, and through Build/ToCommandLine with = and !=); every (arch, syscall) entry (a name maps to one number, the rule package's reverse table, and a rule '-F arch=A -S name' sets exactly that bit and round-trips); every rule field / operator / comparison table entry (verif export hook) against linux/audit.h in both directions; every entry of normalizations.yaml (read from /repo, loaded with the exported loader and walked independently as a YAML node tree): record types resolve and print back identically, syscalls occur in at least one arch table, nothing listed twice, every record type selects the same normalisation on repeated evaluation for every subset of its has_fields, and a record type with several conditional normalisations selects the one whose has_fields the record carries (none when it carries none). Compound events of every named first record type with different syscalls are coalesced one after the other and re-checked afterwards (the shared table entries must not be written). distinct_nontrivial = distinct named table entries visited.",
 		Assumptions: []string{
 			"the tables are read through the exported maps/functions and the verif export hook at run time, so the check sees what the build contains",
 			"normalizations.yaml is read from the repository tree that the harness is built against (it is embedded from the same file)",
